@@ -21,6 +21,7 @@ RULE = ("one run = one or two Serial devices on the channels of a simulated EL60
         "and at the pipes; distinct = "
         "distinct event-log digests; non-trivial = at least 3 chunks in each direction")
 RULE += '; since the 4th session the applications read with their own buffer size (1-23 bytes or 4096) and may close their sending end right after a last short command'
+RULE += '; also an init accept the terminal keeps showing for 0-4 cycles while it already works, and cyclic datagrams it does not process (2-6 %)'
 COMPONENTS = {
     "real": ["ebpfcat.serial.Serial.update", "ebpfcat.terminals.EL6002.Channel descriptors",
              "ebpfcat.ebpfcat.SyncGroup cycle, PacketVar ('23p' and bit access)",
